@@ -62,7 +62,8 @@ Proof. exact connect_failure_status_proof. Qed.
 (** 3. no_truncated_as_complete: a relayed response is reported complete only
     if the backend ended it cleanly; the clean flag is raised only by a clean
     end of message or by EOF on a close-delimited body; and a backend lost
-    mid-body under keep-alive framing yields an abort and phase Error. *)
+    mid-body under keep-alive framing yields an abort with phase Error, or - when
+    nothing of the response was forwarded yet - a default answer; never a relay end. *)
 Theorem no_truncated_as_complete :
   forall (redir : option N) (h2 : bool) (history : list input) (i : input),
     let x := run_st redir (fresh, init_conn h2) history in
@@ -71,9 +72,19 @@ Theorem no_truncated_as_complete :
        i = IBackEnd \/ (i = IBackClose /\ s_ka (fst x) = false)) /\
     (i = IBackClose -> s_state (fst x) = SLinked -> s_ka (fst x) = true -> c_closed (snd x) = false ->
        (s_phase (fst x) = PBody \/ s_phase (fst x) = PChunks \/ s_phase (fst x) = PTrailers) ->
-       existsb is_abort (evs redir x i) = true /\ existsb is_relay_end (evs redir x i) = false /\
-       s_phase (fst (nxt redir x i)) = PError).
+       existsb is_relay_end (evs redir x i) = false /\
+       ((existsb is_abort (evs redir x i) && is_error (s_phase (fst (nxt redir x i))))
+        || existsb is_default (evs redir x i)) = true).
 Proof. exact no_truncated_as_complete_proof. Qed.
+
+(** An abort (forced termination / close with an unfinished response) only ever
+    happens once bytes of the backend's response are on the wire; before that
+    the request gets a default answer (502 / 504 / 503). *)
+Theorem abort_only_after_response_started :
+  forall (redir : option N) (h2 : bool) (history : list input) (i : input) (b : bool),
+    let x := run_st redir (fresh, init_conn h2) history in
+    In (EvAbort b) (evs redir x i) -> b = true.
+Proof. exact abort_only_after_start_proof. Qed.
 
 (** On an HTTP/1 frontend, a response relayed under "Connection: close" (the
     only delimiter of a body without a length) ends together with the
